@@ -249,6 +249,7 @@ def run_case(case):
     M.socket, M.select, M.time, M.random, M.os = fsock, fselect, ftime, frandom, fos
     logging.raiseExceptions = False
     crash = None
+    effective = {}
     try:
         with contextlib.redirect_stdout(io.StringIO()), contextlib.redirect_stderr(io.StringIO()):
             mm = M.MessageManager(ip_address="127.0.0.1", port=7111, timecode=timecode,
@@ -258,6 +259,20 @@ def run_case(case):
             mm.logger.enable_console = False
             mm.subscriptions = defaultdict(SortedSet)
             mm.logger_modules = SortedSet()
+            # a control frame declaring fewer bytes than its definition is decoded from whatever the shared receive
+            # buffer holds: record those bytes (observation only) so that the model can be given the same payload
+            sizes = {W.MT["CONNECT"]: 4, W.MT["CONNECT_V2"]: 44, W.MT["SUBSCRIBE"]: 4, W.MT["UNSUBSCRIBE"]: 4,
+                     W.MT["PAUSE_SUBSCRIPTION"]: 4, W.MT["RESUME_SUBSCRIPTION"]: 4, W.MT["CLIENT_SET_NAME"]: 32,
+                     W.MT["MODULE_READY"]: 4}
+            real_pm = mm.process_message
+
+            def observing_pm(src):
+                h = mm.header
+                sz = sizes.get(int(h.msg_type))
+                if sz is not None and 0 <= int(h.num_data_bytes) < sz:
+                    effective[str(int(h.msg_count))] = bytes(mm.data_buffer[:sz]).hex()
+                return real_pm(src)
+            mm.process_message = observing_pm
             try:
                 mm.run()
             except BaseException as e:  # noqa: escaped run(): the manager is dead
@@ -279,7 +294,8 @@ def run_case(case):
             d = W.decode_payload(h["type"], b) if h is not None else None
             items.append([cid, "P", b.hex() if len(b) <= 64 else None, len(b),
                           __import__("hashlib").sha1(b).hexdigest(), d, h["type"] if h else None])
-    return dict(crash=crash, items=items, unread_events=len(script.events), blocking_selects=script.blocking_selects)
+    return dict(crash=crash, items=items, unread_events=len(script.events), blocking_selects=script.blocking_selects,
+                effective=effective)
 
 
 def main():
